@@ -351,3 +351,120 @@ func negatedCall(e ast.Expr, fn string) bool {
 	id, ok := c.Fun.(*ast.Ident)
 	return ok && id.Name == fn
 }
+
+// genOpenSshFacts: internal/file/ssh.go parseKdfOptions → Gen/OpenSshFacts.lean
+//   kdfOptsLengthGuard : the function first refuses options shorter than the two length fields (`len(opts) < 8`)
+//   kdfOptsWideSum     : the length equation converts to uint64 before adding (no 32-bit wrap-around)
+func genOpenSshFacts() {
+	f := parse("internal/file/ssh.go")
+	fd := findFunc(f, "parseKdfOptions")
+	if fd == nil {
+		die("parseKdfOptions not found")
+	}
+	guard, wide := false, false
+	sawSlice := false
+	for _, st := range fd.Body.List {
+		is, ok := st.(*ast.IfStmt)
+		if ok && endsInReturn(is.Body) {
+			if be, ok := is.Cond.(*ast.BinaryExpr); ok {
+				// len(opts) < 8, before opts is sliced or indexed
+				if be.Op == token.LSS && !sawSlice {
+					if c, ok := be.X.(*ast.CallExpr); ok && containsCall(c, "len") {
+						if l, ok := be.Y.(*ast.BasicLit); ok && l.Value == "8" {
+							guard = true
+						}
+					}
+				}
+				if be.Op == token.NEQ && mentions(be, "saltLen") {
+					// both sides must be widened: every operand that mentions saltLen or len( sits under uint64(…)
+					wide = containsCall(be.X, "uint64") && containsCall(be.Y, "uint64") && !containsCall(be, "uint32")
+				}
+			}
+		}
+		ast.Inspect(st, func(n ast.Node) bool {
+			switch n.(type) {
+			case *ast.SliceExpr, *ast.IndexExpr:
+				if !ok {
+					sawSlice = true
+				}
+			}
+			return true
+		})
+	}
+	var sb strings.Builder
+	sb.WriteString(fmt.Sprintf("def kdfOptsLengthGuard : Bool := %v\n", guard))
+	sb.WriteString(fmt.Sprintf("def kdfOptsWideSum : Bool := %v\n", wide))
+	writeGen("OpenSshFacts", sb.String())
+	facts["openssh.kdfOptsLengthGuard"] = guard
+	facts["openssh.kdfOptsWideSum"] = wide
+}
+
+// genJksFacts: internal/file/jks.go jksLengthsPlausible → Gen/JksFacts.lean
+//   jksStopsOnTruncation : the `skip` helper records a truncated field in a flag, and EVERY for loop of the walk has
+//                          the negated flag in its condition (so a loop whose bound is a 32-bit count from the file
+//                          cannot keep counting without moving)
+func genJksFacts() {
+	f := parse("internal/file/jks.go")
+	fd := findFunc(f, "jksLengthsPlausible")
+	if fd == nil {
+		die("jksLengthsPlausible not found")
+	}
+	flag := ""
+	ast.Inspect(fd.Body, func(n ast.Node) bool {
+		as, ok := n.(*ast.AssignStmt)
+		if !ok || len(as.Lhs) != 1 || len(as.Rhs) != 1 {
+			return true
+		}
+		id, ok := as.Lhs[0].(*ast.Ident)
+		fl, ok2 := as.Rhs[0].(*ast.FuncLit)
+		if !ok || !ok2 || id.Name != "skip" {
+			return true
+		}
+		for _, st := range fl.Body.List {
+			is, ok := st.(*ast.IfStmt)
+			if !ok {
+				continue
+			}
+			u, ok := is.Cond.(*ast.UnaryExpr)
+			if !ok || u.Op != token.NOT {
+				continue
+			}
+			for _, b := range is.Body.List {
+				if a, ok := b.(*ast.AssignStmt); ok && len(a.Lhs) == 1 && len(a.Rhs) == 1 {
+					if l, ok := a.Lhs[0].(*ast.Ident); ok {
+						if r, ok := a.Rhs[0].(*ast.Ident); ok && r.Name == "true" {
+							flag = l.Name
+						}
+					}
+				}
+			}
+		}
+		return false
+	})
+	loops, guarded := 0, 0
+	ast.Inspect(fd.Body, func(n ast.Node) bool {
+		fs, ok := n.(*ast.ForStmt)
+		if !ok {
+			return true
+		}
+		loops++
+		if flag != "" && fs.Cond != nil {
+			found := false
+			ast.Inspect(fs.Cond, func(x ast.Node) bool {
+				if u, ok := x.(*ast.UnaryExpr); ok && u.Op == token.NOT {
+					if id, ok := u.X.(*ast.Ident); ok && id.Name == flag {
+						found = true
+					}
+				}
+				return true
+			})
+			if found {
+				guarded++
+			}
+		}
+		return true
+	})
+	stops := flag != "" && loops > 0 && loops == guarded
+	writeGen("JksFacts", fmt.Sprintf("def jksStopsOnTruncation : Bool := %v\n", stops))
+	facts["jks.stopsOnTruncation"] = stops
+}
